@@ -152,7 +152,9 @@ Definition run_compiled_dir (inv : invocation) : string :=
   let cdir := i_dir inv in
   if negb (String.eqb (i_workdir inv) (i_dir inv)) then i_workdir inv else cdir.
 
-Definition run_compiled_wiring : wiring :=
+(* c.Stderr = inv.Stderr; c.Stdout = inv.Stdout; c.Stdin = inv.Stdin - whatever the invocation asks for
+   and however many words follow (none: the default target runs) *)
+Definition run_compiled_wiring (inv : invocation) (nargs : nat) : wiring :=
   {| w_stderr := CallerStderr; w_stdout := CallerStdout; w_stdin := CallerStdin |}.
 
 (* the process the operating system starts: os/exec de-duplicates c.Env *)
@@ -188,12 +190,15 @@ Definition gm_parse (cf : cflags) (e : env) : arguments :=
 
 (* what the program does with its non-flag words; [nargs] of them.  Order of the tests as in the
    template: usage (help without a word), then the Setenv, then list, then help. *)
-Inductive mode := MUsage | MList | MHelp | MRun | MNoWords.
-Definition gm_mode (a : arguments) (nargs : nat) : mode :=
+Inductive mode := MUsage | MList | MHelp | MRun.
+Definition IGNOREDEFAULT := "MAGEFILE_IGNOREDEFAULT".
+Definition gm_mode (a : arguments) (nargs : nat) (has_default : bool) (e : env) : mode :=
   if a_help a && Nat.eqb nargs 0 then MUsage
   else if a_list a then MList
   else if a_help a then MHelp
-  else if Nat.ltb nargs 1 then MNoWords      (* default target or listing: C04's subject *)
+  else if Nat.ltb nargs 1 then
+    (* no words: the default target runs, unless there is none or MAGEFILE_IGNOREDEFAULT says so: listing *)
+    if has_default then (if mg_bool IGNOREDEFAULT e then MList else MRun) else MList
   else MRun.
 
 (* the environment target code sees: os.Setenv("MAGEFILE_VERBOSE", "1" / "0") *)
